@@ -42,7 +42,8 @@ fn generate(seed: u64, tier: Tier) -> Value {
         } else if k < 60 {
             json!({"op": "retrieve", "id": r.below(3), "pw": *r.pick(&["current", "current", "previous", "random", "random", "failed_change"])})
         } else if k < 72 {
-            json!({"op": "change", "fail": if r.chance(1, 3) { json!(r.below(3)) } else { Value::Null }})
+            // one change in four re-seals the store under the SAME password (salt rotation)
+            json!({"op": "change", "fail": if r.chance(1, 3) { json!(r.below(3)) } else { Value::Null }, "same": r.chance(1, 4)})
         } else if k < 80 {
             json!({"op": "clear_cache"})
         } else if k < 88 {
@@ -53,8 +54,15 @@ fn generate(seed: u64, tier: Tier) -> Value {
             json!({"op": "change_wrong_pw"})
         };
         let follow = op["op"] == "change" && !op["fail"].is_null() && r.chance(2, 3);
+        let reseal = op["op"] == "change" && op["same"] == true;
         ops.push(op);
         if follow { ops.push(json!({"op": "retrieve", "id": r.below(3), "pw": "failed_change"})); }
+        if reseal {
+            // what was sealed must open again once nothing of this session is left in memory
+            ops.push(json!({"op": *r.pick(&["clear_cache", "reopen", "store"]), "id": r.below(3), "seed": r.below(1 << 40), "fail": Value::Null}));
+            ops.push(json!({"op": *r.pick(&["clear_cache", "reopen"])}));
+            for id in 0..3 { ops.push(json!({"op": "retrieve", "id": id, "pw": "current"})); }
+        }
     }
     json!({"property": "C18", "seed": seed, "ops": ops,
            "corrupt_positions": if tier == Tier::Quick { 24 } else { 0 }})
@@ -236,7 +244,9 @@ fn execute(sc: &Value) -> RunReport {
                 "change" | "change_wrong_pw" => {
                     let wrong = kind == "change_wrong_pw";
                     let old = if wrong { pw(700 + idx as u64) } else { pw(cur_pw) };
-                    let newn = next_pw;
+                    let same = !wrong && op["same"].as_bool().unwrap_or(false);
+                    let newn = if same { cur_pw } else { next_pw };
+                    if same { ctx.probe("resealed_under_same_password"); }
                     cap.borrow_mut().images.clear();
                     cap.borrow_mut().enabled = true;
                     { let mut c = cap.borrow_mut(); c.injected = None; c.fail_at = if wrong { None } else { op["fail"].as_u64().map(|k| c.callbacks + k) }; }
@@ -252,7 +262,7 @@ fn execute(sc: &Value) -> RunReport {
                         (Err(_), false) if injected.is_some() => {
                             // the old file stays: the old password remains the current one, the new one never took effect
                             ctx.fault("io_error_injected");
-                            failed_pws.push(newn);
+                            if !same { failed_pws.push(newn); }
                             next_pw += 1;
                             let now = std::fs::read(&path).unwrap_or_default();
                             if versions.last().map(|v| v.file != now).unwrap_or(false) {
@@ -260,7 +270,7 @@ fn execute(sc: &Value) -> RunReport {
                             }
                         }
                         (Ok(()), false) => {
-                            prev_pws.push(cur_pw);
+                            if !same { prev_pws.push(cur_pw); }
                             cur_pw = newn;
                             next_pw += 1;
                             versions.push(Version { file: std::fs::read(&path).unwrap_or_default(), password: cur_pw, seeds: seeds.clone() });
@@ -336,6 +346,9 @@ fn execute(sc: &Value) -> RunReport {
             let cpath = cdir.join(&file_name);
             for pos in positions {
                 for pat in [0x01u8, 0x80u8] {
+                    // the second pattern for the header region and every fourth byte beyond it (cost: one key
+                    // derivation per retrieve; a run must stay well inside the watchdog also on a loaded machine)
+                    if pat == 0x80 && pos >= 48 && pos % 4 != 0 { continue; }
                     let mut b = final_file.clone();
                     b[pos] ^= pat;
                     simstore::materialise(&dir_image, &cdir);
@@ -343,7 +356,8 @@ fn execute(sc: &Value) -> RunReport {
                     let m = EncryptedKeyStorageManager::new(&cpath, SecurityLevel::Fast).expect("manager");
                     ctx.fault("byte_flip");
                     let mut opened = false;
-                    for (id, want) in seeds.iter() {
+                    for (j, (id, want)) in seeds.iter().enumerate() {
+                        if j > 0 && pos >= 64 { break; } // beyond the header every seed id shares one authenticated blob
                         match m.retrieve_master_seed(id, &pw(cur_pw)).await {
                             Err(_) => { ctx.probe("corruption_rejected"); break; }
                             Ok(got) if got.seed_material() == &want[..] => { opened = true; ctx.probe("corruption_harmless_byte"); }
@@ -355,7 +369,7 @@ fn execute(sc: &Value) -> RunReport {
                     }
                     let _ = opened;
                     // no other password opens the damaged store either (one earlier password per position)
-                    if pat == 0x01 {
+                    if pat == 0x01 && (pos < 64 || pos % 8 == 0) {
                         if let Some(old) = prev_pws.last().copied().filter(|o| *o != cur_pw) {
                             let m2 = EncryptedKeyStorageManager::new(&cpath, SecurityLevel::Fast).expect("manager");
                             let id = seeds.keys().next().cloned().unwrap_or_default();
@@ -371,7 +385,7 @@ fn execute(sc: &Value) -> RunReport {
     });
     drop(rt);
     simstore::uninstall();
-    for k in ["retrieve_with_password_of_failed_change", "crash_images", "crash_images_opened", "wrong_password_after_store_same_process", "password_changed", "reopen", "corruption_rejected", "corruption_harmless_byte"] {
+    for k in ["resealed_under_same_password", "retrieve_with_password_of_failed_change", "crash_images", "crash_images_opened", "wrong_password_after_store_same_process", "password_changed", "reopen", "corruption_rejected", "corruption_harmless_byte"] {
         ctx.probes.entry(k.to_string()).or_insert(0);
     }
     let reached = cap.borrow().reached.clone();
